@@ -544,7 +544,7 @@ func c08judge(r *core.Recorder, c c08case, q rig.Req, s c08script, resp *rig.Res
 func c08Plan(tier string, seed int64) []core.Batch {
 	n := 220
 	if tier == "thorough" {
-		n = 3000
+		n = 15000
 	}
 	var bs []core.Batch
 	for _, tr := range []string{"plain", "tunnel"} {
@@ -567,6 +567,6 @@ func init() {
 		Plan:     c08Plan,
 		Run:      c08Run,
 		Parallel: 4,
-		Floors:   map[string]map[string]int64{"quick": {"origin_requests_checked": 300, "answers_from_store_checked": 20}, "thorough": {"origin_requests_checked": 8000, "answers_from_store_checked": 500}},
+		Floors:   map[string]map[string]int64{"quick": {"origin_requests_checked": 300, "answers_from_store_checked": 20}, "thorough": {"origin_requests_checked": 40000, "answers_from_store_checked": 1500}},
 	})
 }
